@@ -116,7 +116,11 @@ def opticG (B : Backend) (op : String) (args : List Sx) (impl : Sx) : Option Out
       pure (outs, mono)
     let o := exact m impl
     -- oracle: the implementation's answer must be (f x, Jᵀ dy) and the adapted optic monogamous
-    let oracle : Bool := match (LOHG.toStrict B f).bind (fun sf => refRevDeriv B sf x dy), (unOk impl).bind (dec (α := L × Bool)) with
+    -- (C14's derivative clause quantifies over input vectors of the circuit's own arity: an `x`/`dy` of
+    -- another length is outside it — there only model and implementation are compared, so that the
+    -- minimiser cannot drift to a mis-sized vector and report it as the failing input)
+    let sized := x.length == f.sources.length && dy.length == f.targets.length
+    let oracle : Bool := !sized || match (LOHG.toStrict B f).bind (fun sf => refRevDeriv B sf x dy), (unOk impl).bind (dec (α := L × Bool)) with
       | .ok (fx, g), some (io, mono) => io == fx ++ g && mono
       | _, _ => false
     pure { o with agree := o.agree && oracle, note := if oracle then o.note else "oracle: not (f x, J^T dy) or not monogamous" }
